@@ -43,7 +43,7 @@ def mk(sid, prog, consts, files=None, **cfg):
     nz = sum(1 for f in p.values() for st in f if st[0] in ('instr', 'data', 'fill', 'zero') and st != KINDS['z0'])
     nz += len(cfg.get('data_blocks', ()))
     return LayoutShape(sid, prog=p, cfgargs=dict(consts=cs, **cfg), props=['C04'], binary=False, width=24,
-                       expect=['ok', 'exit'] if nz >= 2 else ['ok'])
+                       expect=['ok', 'rejected'] if nz >= 2 else ['ok'])
 
 
 def shapes(tier, seed):
